@@ -37,7 +37,7 @@ DefPool == <<
   G1("S1"),                                                                               \* 24 the structure's data
   Idx("BIGPR", <<2>>, <<G1("S1")>>)                                                       \* 25 differs from 9 only in the index
 >>
-Toks(d) == IF d = NoDef THEN <<>> ELSE Render(d, FALSE).t
+Toks(d) == IF d = NoDef THEN <<>> ELSE Render(d, 0).t
 Fresh1 == CHOOSE u \in 1..(MaxCst + 6) : u \notin Ids /\ \A v \in 1..(MaxCst + 6) : v \notin Ids => u <= v
 
 \* presets: "terms" (definitions over X1, D1, D2), "struct" (structure S1 with data and projections of it),
